@@ -3,7 +3,9 @@ Oracle: every public estimator family is fitted, incrementally fitted and asked
 to predict on data accepted by its own validation — duplicates, samples on a
 category centre, exact ties, boundary hyper-parameters — under the property's
 standing guards; any exception or non-finite weight / activation / match value /
-cluster centre is a violation.  Tie: the Lean checked kernels report `zerodiv`
+cluster centre is a violation.  The hyper-parameters are also given in every
+representation validate_params accepts (integer / narrow / float32 array dtypes,
+strided, read-only and broadcast arrays, NumPy scalars).  Tie: the Lean checked kernels report `zerodiv`
 exactly where the implementation raises (kern ops, shared with C03)."""
 from __future__ import annotations
 
@@ -15,7 +17,9 @@ from ..impl import quiet, exc_enum, make, MODES, Recorder
 RULE = ("cases = (family, hyper-parameters incl. extreme-but-legal values, stream with duplicates / centre hits / "
         "ties, batching); each runs fit or partial_fit batches, predict and get_cluster_centers; non-trivial when "
         "the stream contains a duplicate row or a boundary hyper-parameter; distinct by hash of (family spec, stream, "
-        "partition)")
+        "partition); plus (elementary class, one representation of its hyper-parameters that validate_params accepts: "
+        "dtype x magnitude x memory layout of array hyper-parameters, or a scalar type; bare or inside a host; stream "
+        "with repeated rows; batching)")
 
 
 def finite_weights(est) -> bool:
@@ -174,6 +178,7 @@ def run(ctx):
     nonfinite_inputs(ctx)
     reset_histories(ctx)
     several_instances(ctx)
+    param_representations(ctx)
 
 
 def _bounds_owner(est):
@@ -454,3 +459,219 @@ def several_instances(ctx):
             ctx.issue("violation", f"FusionART:several-instances:{stage.split(' (')[0].replace(' ', '_')}:{exc_enum(e)}",
                       f"models with {ks} channels used one after the other in one process: {stage} raised {e!r} on valid fitted data", desc)
         cov.case(("instances", tuple(ks), desc["X"]), True)
+
+
+# ---------------------------------------------------------------- representations of the hyper-parameters
+# The statement quantifies over "all hyper-parameters accepted by validate_params".  validate_params looks at
+# values (ranges) and, for some keys, at the Python type; what it lets through is wider than "a Python float / a
+# float64 C-contiguous ndarray": an ndarray hyper-parameter (GaussianART.sigma_init, BayesianART.cov_init) of ANY
+# real dtype (np.ones(d, dtype=int), np.eye(d, dtype=int), float32 ...) and of any memory layout (strided view,
+# read-only, zero-stride broadcast, Fortran order), np.float64 scalars (a subclass of float), and - for keys whose
+# type is not looked at - Python ints and NumPy scalars of any width.  Each case re-expresses the SAME kind of legal
+# values in one such representation, asks the class's own validate_params, and - if accepted - trains.
+
+REAL_DTYPES = sorted({np.dtype(c).name for c in np.typecodes["AllInteger"] + np.typecodes["Float"]})
+ARRAY_HOSTS = ["bare", "bare", "SimpleARTMAP", "FusionART", "DualVigilanceART"]
+
+
+def _array_values(r, dtype: np.dtype, extreme_: bool):
+    """a positive value that `dtype` holds exactly: ordinary (the range of specs.elem_spec) or extreme-but-legal
+    (the range of `extreme` above: 2^-20 .. 1e3, clipped to what the dtype can hold)"""
+    if dtype.kind in "iu":
+        hi = min(1000, int(np.iinfo(dtype).max))
+        return r.choice([hi, hi // 2 + 1, 16, 12]) if extreme_ else r.choice([1, 1, 2, 3])
+    return r.choice([2.0 ** -20, 1000.0, 256.0]) if extreme_ else r.choice([0.25, 0.5, 1.0, 2.0])
+
+
+def _as_layout(r, a: np.ndarray, layout: str) -> np.ndarray:
+    """the same values and dtype in another memory layout"""
+    if layout == "strided":                      # every other element of a larger buffer
+        big = np.zeros(tuple(2 * k for k in a.shape), dtype=a.dtype)
+        view = big[tuple(slice(None, None, 2) for _ in a.shape)]
+        view[...] = a
+        return view
+    if layout == "readonly":
+        b = a.copy()
+        b.flags.writeable = False
+        return b
+    if layout == "fortran":
+        return np.asfortranarray(a)
+    if layout == "broadcast":                    # np.broadcast_to(scalar, shape): zero strides, read-only
+        if a.ndim == 1 and len(set(a.tolist())) == 1:
+            return np.broadcast_to(a[:1].copy()[0], a.shape)
+        return a
+    return a
+
+
+def _scalar_candidates(v: float):
+    out = [("np.float64", np.float64(v)), ("np.float32", np.float32(v)), ("np.float16", np.float16(v))]
+    if float(v).is_integer() and abs(v) < 2 ** 15:
+        out += [("int", int(v)), ("np.int64", np.int64(int(v))), ("np.int32", np.int32(int(v))), ("np.uint8", np.uint8(int(v)))] \
+            if 0 <= v < 256 else [("int", int(v)), ("np.int64", np.int64(int(v)))]
+    return [(n_, c) for n_, c in out if float(c) == float(v)]      # only exact re-expressions of the same value
+
+
+def _py(v):
+    """source text that rebuilds a hyper-parameter (for the replay)"""
+    if isinstance(v, np.ndarray):
+        vals = v.astype(float).tolist() if v.dtype.kind == "f" else v.tolist()     # exact: every generated value is a small dyadic
+        return f"np.array({vals!r}, dtype=np.{v.dtype.name})"
+    if isinstance(v, np.generic):
+        return f"np.{type(v).__name__}({float(v) if v.dtype.kind == 'f' else int(v)!r})"
+    return repr(v)
+
+
+def _drive_repr(cls, params, d, host, X, y, mode, parts):
+    """build `cls(**params)` (bare or inside `host`), train, predict, read the centres: None when everything the
+    statement asks for holds, else (signature suffix, what)"""
+    import artlib
+    from ..impl import ELEMENTARY, time_limit
+    stage = "__init__"
+    try:
+        with quiet(), time_limit(90.0), np.errstate(all="ignore"):
+            mod = ELEMENTARY[cls](**params)
+            if host == "bare":
+                est = mod
+            elif host == "SimpleARTMAP":
+                est = artlib.SimpleARTMAP(mod)
+            elif host == "DualVigilanceART":
+                est = artlib.DualVigilanceART(mod, float(params["rho"]) / 2)
+            else:
+                est = artlib.FusionART([mod, artlib.FuzzyART(0.5, 2.0 ** -10, 1.0)], [0.5, 0.5], [specs.width(cls, d), 2])
+                X = np.hstack([X, gen.cc(X[:, :1])])                 # second channel: FuzzyART on the first raw column
+            spy = ActivationSpy(est)
+            args = (lambda a, b: (X[a:b], y[a:b])) if host == "SimpleARTMAP" else (lambda a, b: (X[a:b],))
+            if parts is not None:
+                stage = "partial_fit"
+                j = 0
+                for p in parts:
+                    est.partial_fit(*args(j, j + p), match_tracking=mode)
+                    j += p
+                    if not finite_weights(est):          # "remain finite": after every batch, not only at the end
+                        return ":non-finite-weight", f"NaN/inf in the learned weights after the batch ending at row {j}: W = {[np.asarray(w).tolist() for w in mod.W][:3]}"
+            else:
+                stage = "fit"
+                est.fit(*args(0, len(X)), match_tracking=mode)
+            stage = "predict"
+            est.predict(X[: min(len(X), 5)])
+            stage = "get_cluster_centers"
+            cen = mod.get_cluster_centers() if getattr(mod, "d_max_", 1) is not None else []
+        if not finite_weights(est):
+            return ":non-finite-weight", f"NaN/inf in the learned weights: W[0] = {np.asarray(mod.W[0]).tolist()}"
+        if not all(np.all(np.isfinite(np.asarray(c, dtype=float))) for c in cen):
+            return ":non-finite-centre", "NaN/inf in get_cluster_centers()"
+        if spy.bad:
+            return f":non-finite-activation-or-match:{spy.bad[0][0]}", f"non-finite value returned during training or prediction: {spy.bad[:2]}"
+        return None
+    except Exception as e:
+        return f".{stage}:{exc_enum(e)}", f"{stage} raised {e!r}"
+
+
+def param_representations(ctx):
+    """hyper-parameters accepted by validate_params in every representation it accepts (dtype and memory layout of
+    array hyper-parameters, scalar types), bare and inside compound estimators: fit, partial_fit in batches, predict
+    and get_cluster_centers raise nothing and leave only finite weights / activations / match values / centres.
+    A case re-expresses either the array hyper-parameters or the scalar ones (one representation per case), so that
+    the signature names the representation that was exercised; a failure inside a host is re-run on the bare module
+    and reported against the smallest context that shows it."""
+    from ..impl import ELEMENTARY
+    cov = ctx.cov
+    with_arrays = [c for c in specs.ELEM if any(isinstance(v, list) for v in specs.elem_spec(gen.rng_for(0, "C04-repr-probe"), c, 2).values())]
+    classes = with_arrays * 3 + specs.ELEM          # array hyper-parameters carry most of the cases; scalars for every class
+    for i in range(ctx.scale(560, 5600)):
+        r = gen.rng_for(ctx.seed, "C04-repr", i)
+        cls = classes[i % len(classes)]
+        C = ELEMENTARY[cls]
+        d = r.randint(1, 3)
+        spec = specs.elem_spec(r, cls, d)
+        params = {k: v for k, v in spec.items() if k != "cls"}
+        akeys = [k for k, v in params.items() if isinstance(v, list)]
+        arrays_case = bool(akeys) and i % len(classes) < 3 * len(with_arrays)
+        for key in akeys:                                              # what impl.make does: float64, C-contiguous
+            params[key] = np.array(params[key], dtype=float)
+        tag, layouts = None, {}
+        if arrays_case:
+            # ---- array hyper-parameters: dtype x magnitude x layout
+            j = (i // len(classes)) * 3 * len(with_arrays) + i % len(classes)         # running number of the array case
+            dt = np.dtype(REAL_DTYPES[(j // len(with_arrays)) % len(REAL_DTYPES)])     # every class meets every dtype in turn
+            ext = r.random() < 0.3
+            for key in akeys:
+                shape = params[key].shape
+                if len(shape) == 1:
+                    a = np.array([_array_values(r, dt, ext) for _ in range(shape[0])]).astype(dt)
+                    if r.random() < 0.4:
+                        a[:] = a[0]
+                else:
+                    a = (np.eye(shape[0]) * _array_values(r, dt, ext)).astype(dt)
+                layout = r.choice(["contiguous", "contiguous", "strided", "readonly", "broadcast" if a.ndim == 1 else "fortran"])
+                params[key] = _as_layout(r, a, layout)
+                assert params[key].dtype == dt and np.array_equal(params[key], a)
+                layouts[key] = layout
+            tag = "+".join(akeys) + f":{dt.name}" + ("+extreme" if ext else "")
+            try:
+                with quiet():
+                    C.validate_params(params)
+            except AssertionError:
+                cov.hit(f"repr:array:{dt.name}:rejected-by-validate_params")
+                continue
+            cov.hit(f"repr:array-dtype:{dt.name}")
+            cov.hit(f"repr:array-dtype-kind:{'integer' if dt.kind in 'iu' else 'float'}{'+extreme' if ext else ''}")
+            for layout in layouts.values():
+                cov.hit(f"repr:array-layout:{layout}")
+        else:
+            # ---- scalar hyper-parameters: one scalar type, on every key where validate_params lets the exact value through
+            accepted = {}
+            for nm in ["np.float64", "np.float32", "np.float16", "int", "np.int64", "np.int32", "np.uint8"]:
+                for key in [k for k, v in params.items() if isinstance(v, float)]:
+                    cand = dict(_scalar_candidates(params[key])).get(nm)
+                    if cand is None:
+                        continue
+                    try:
+                        with quiet():
+                            C.validate_params(dict(params, **{key: cand}))
+                    except AssertionError:
+                        cov.hit(f"repr:scalar:{nm}:rejected-by-validate_params")
+                        continue
+                    except Exception as e:
+                        ctx.issue("violation", f"{cls}.validate_params[{key}:{nm}]:{exc_enum(e)}",
+                                  f"validate_params raised {e!r} instead of accepting or rejecting", {"cls": cls, "key": key, "value": _py(cand)})
+                        continue
+                    accepted.setdefault(nm, {})[key] = cand
+            if not accepted:
+                continue
+            rare = [nm for nm in accepted if nm != "np.float64"]
+            nm = r.choice(rare) if rare and (r.random() < 0.6 or "np.float64" not in accepted) else r.choice(sorted(accepted))
+            params = dict(params, **accepted[nm])
+            tag = f"{'+'.join(accepted[nm])}:{nm}"
+            cov.hit(f"repr:scalar:{nm}:accepted")
+        host = r.choice(ARRAY_HOSTS)
+        if host == "DualVigilanceART" and (cls == "BayesianART" or not float(params["rho"]) > 0.0):
+            host = "bare"
+        n = r.randint(3, 12)
+        X = specs.elem_data(r, cls, n, d, style=r.choice(["dups", "coarse", "corners", "blobs"]) if cls != "ART1" else None)
+        X = np.vstack([X, X[: max(1, n // 3)]])                       # repeated rows: samples on a category centre
+        y = gen.labels(r, len(X), r.randint(1, 3))
+        mode = r.choice(MODES)
+        parts = gen.compositions(r, len(X)) if r.random() < 0.5 else None
+        ctor = f"{cls}(" + ", ".join(f"{k}={_py(v)}" for k, v in params.items()) + ")"
+        bad = _drive_repr(cls, params, d, host, X, y, mode, parts)
+        if bad is not None and host != "bare":
+            alone = _drive_repr(cls, params, d, "bare", X, y, mode, parts) or _drive_repr(cls, params, d, "bare", X, y, mode, [1] * len(X))
+            if alone is not None and _drive_repr(cls, params, d, "bare", X, y, mode, parts) is None:
+                parts = [1] * len(X)
+            if alone is not None:
+                bad, host = alone, "bare"
+        if bad is not None:
+            rep = {"cls": cls, "params": {k: _py(v) for k, v in params.items()}, "constructor": ctor, "array_memory_layout": layouts or None, "host": host,
+                   "X": X.tolist(),
+                   "y": y.tolist() if host == "SimpleARTMAP" else None, "match_tracking": mode,
+                   "second_channel_of_FusionART": "FuzzyART(0.5, 2**-10, 1.0) on complement-coded X[:, :1]" if host == "FusionART" else None,
+                   "calls": (f"partial_fit on consecutive batches of sizes {parts}" if parts else "fit") + ", predict, get_cluster_centers"}
+            where = cls if host == "bare" else f"{host}/{cls}"
+            ctx.issue("violation", f"{where}[{tag}]{bad[0]}",
+                      f"{bad[1]} on valid data although validate_params accepted the hyper-parameters: {ctor}", rep)
+        else:
+            cov.hit(f"repr:trained-ok:{host}")
+        cov.case(("repr", cls, tag, host, ctor, X.tolist(), parts, mode), True)
+        if i % 40 == 0:
+            cov.sample({"representation": tag, "constructor": ctor, "host": host})
